@@ -43,9 +43,15 @@ def materialise(cfg, d):
     unit = cfg.get("unit", "seconds")
     mult = {"seconds": 1, "minutes": 60, "hours": 3600}.get(unit, unit if isinstance(unit, int) else 1)
     pipelines, observations = {}, []
+    seen_wf = {}
     for ob in cfg["obs"]:
-        wfp = f"wf_{ob['o']}.json"
-        write_workflow(os.path.join(d, wfp), ob["wf"])
+        # pipelines with the same workflow share one file (as the repository's
+        # own sample configurations do)
+        key = json.dumps(ob["wf"], sort_keys=True)
+        if key not in seen_wf:
+            seen_wf[key] = f"wf_{ob['o']}.json"
+            write_workflow(os.path.join(d, seen_wf[key]), ob["wf"])
+        wfp = seen_wf[key]
         pipelines[ob["o"]] = {"workflow": wfp, "ingest_demand": ob["ing"]}
         observations.append({"name": ob["o"], "start": ob["est"] * mult,
                              "duration": ob["dur"] * mult,
